@@ -262,6 +262,15 @@ def run_real(cfg, script, is_async):
         raise
     except (dns.exception.DNSException,) as e:
         exc = e
+    except Exception as e:
+        # an undocumented exception escaping resolve() from library code is a result (one the
+        # model never predicts); anything raised by the harness itself stays a harness error
+        import os
+        import traceback
+        tb = traceback.extract_tb(e.__traceback__)
+        if not tb or (os.sep + "dns" + os.sep) not in tb[-1].filename:
+            raise
+        exc = e
     obs = {"queries": env.queries, "sleeps": env.clock.sleeps, "result": describe_result(res, exc, env.clock),
            "elapsed": round(env.clock.now - start, 6), "consumed": env.pos}
     # cache contents
@@ -306,6 +315,13 @@ def run_real(cfg, script, is_async):
             except NeedMore:
                 res2, exc2 = None, "queried-again"
             except dns.exception.DNSException as e:
+                res2, exc2 = None, e
+            except Exception as e:
+                import os
+                import traceback
+                tb = traceback.extract_tb(e.__traceback__)
+                if not tb or (os.sep + "dns" + os.sep) not in tb[-1].filename:
+                    raise
                 res2, exc2 = None, e
             if exc2 == "queried-again":
                 obs["second"] = "queried-again"
